@@ -14,14 +14,17 @@
      C01_stream_roundtrip_stored   the part of the composition that lies entirely in modelled code: a stream
                            header + uncompressed meta-blocks + the empty last meta-block, written by the
                            modelled writers, is decoded by D to exactly the stored bytes (all lengths, all windows)
+     C01_stored_keeps_ring / C01_decoder_ring_untouched   a meta-block that is re-emitted uncompressed (either
+                           fallback) leaves the encoder's last-distance caches as before the block, as it leaves the
+                           decoder's ring; C01_catable_ring_poisoned: catable streams start with both caches poisoned
    and what is stated but not proved:
      C01_stream_roundtrip_modulo_heuristics_stmt   the composition over the stream glue model with the
                            visible hypothesis that the compression back ends emit meta-blocks that D decodes
                            to their input slices (translation-validated on every run by ./check C01). *)
 From Coq Require Import NArith ZArith List Bool.
 From V Require Import lib.Words lib.PMap gen.GenFormat spec.RfcTables spec.PrefixCode spec.Decoder
-  model.EncConfig model.RingBuf model.MetaBlockHeader model.Stream
-  proofs.Format_proofs proofs.RingBuf_proofs proofs.MbHeader_proofs proofs.Stream_proofs proofs.Stored_proofs.
+  model.EncConfig model.RingBuf model.MetaBlockHeader model.DistCache model.Stream
+  proofs.Format_proofs proofs.RingBuf_proofs proofs.MbHeader_proofs proofs.Stream_proofs proofs.Stored_proofs proofs.DistCache_proofs.
 Import ListNotations.
 Open Scope N_scope.
 
@@ -138,6 +141,38 @@ Theorem C01_context_id : forall mode p1 p2, mode < 4 -> p1 < 256 -> p2 < 256 ->
   context_id mode p1 p2 = enc_context mode p1 p2.
 Proof. exact context_id_matches_encoder. Qed.
 Print Assumptions C01_context_id.
+
+(* ---------------------------------------------------------------- the last-distance ring across stored meta-blocks *)
+(* encoder (model/DistCache.v; the presence of both roll-backs, of the hand-over in encode_data and of both
+   poisonings is regenerated from the source): whatever the match finder did to the working cache, a block that is
+   stored by either fallback leaves (dist_cache_, saved_dist_cache_) = (saved, saved) *)
+Theorem C01_stored_keeps_ring : forall saved advanced o, o <> EmittedCompressed ->
+  caches_after_block saved advanced o = (saved, saved).
+Proof. exact stored_block_keeps_caches. Qed.
+Print Assumptions C01_stored_keeps_ring.
+
+(* decoder spec: uncompressed and metadata meta-blocks leave the ring untouched *)
+Theorem C01_decoder_ring_untouched : forall dict_word transform_tbl large window budget s s' islast mlen r,
+  read_mb_header (d_bits s) = Ok ((islast, MbData mlen true), r) ->
+  meta_block dict_word transform_tbl large window budget s = Continue s' -> d_ring s' = d_ring s.
+Proof. exact decoder_ring_untouched. Qed.
+Print Assumptions C01_decoder_ring_untouched.
+
+Theorem C01_decoder_ring_untouched_metadata : forall dict_word transform_tbl large window budget s s' islast r,
+  read_mb_header (d_bits s) = Ok ((islast, MbMetadata), r) ->
+  meta_block dict_word transform_tbl large window budget s = Continue s' -> d_ring s' = d_ring s.
+Proof. exact decoder_ring_untouched_metadata. Qed.
+Print Assumptions C01_decoder_ring_untouched_metadata.
+
+(* catable streams: both caches start poisoned (0x7ffffff0, beyond every window, +-3 without overflow), and a
+   stored first meta-block keeps them poisoned: no short code can refer to the stream it is appended to *)
+Theorem C01_catable_ring_poisoned :
+  initial_caches true = (fill poison, fill poison) /\
+  (forall advanced o, o <> EmittedCompressed ->
+     caches_after_block (snd (initial_caches true)) advanced o = (fill poison, fill poison)) /\
+  (2 ^ 30 - 16 + 3 < poison /\ poison + 3 < 2 ^ 31)%Z.
+Proof. exact (conj catable_caches_poisoned (conj catable_first_block_stored poison_beyond_every_window)). Qed.
+Print Assumptions C01_catable_ring_poisoned.
 
 (* ---------------------------------------------------------------- (e) the composition *)
 (* proved part: D o W = id on stored streams.  [store_chunks] is the writer of BrotliStoreUncompressedMetaBlock
